@@ -444,6 +444,7 @@ pub fn run(ctx: &mut Ctx) {
     let n = ctx.tier.pick(60_000, 3_000_000);
     ctx.run_prop("numbers", n, || crate::gen::tape(400).prop_map(gen_case), judge);
     ctx.run_prop("bytes", ctx.tier.pick(10_000, 300_000), || crate::gen::tape(400).prop_map(gen_bytes_case), judge_bytes);
+    crate::fuzz::run_for(ctx);
     // every field x well-formed spelling cell must have been hit
     for f in NUMERIC_FIELDS {
         for sp in ALL_SPELLINGS {
@@ -464,4 +465,8 @@ pub fn replay(sub: &str, case: &Value) -> Option<Verdict> {
         "bytes" => Some(replay_as::<BytesCase>(case, judge_bytes)),
         _ => None,
     }
+}
+
+pub fn gen_case_pub(tape: Vec<u8>) -> Case {
+    gen_case(tape)
 }
